@@ -961,6 +961,34 @@ func (fr *frame) loopHeader(b *ssa.BasicBlock, reach Term, hin Heap, ps []*ssa.B
 		}
 		x.sc.assert(implies(reach, x.typeFacts(phi.Type(), fr.vals[phi], h)))
 	}
+	// compiler-generated range loops: the hidden index satisfies -1 <= idx < len (len is evaluated once,
+	// before the loop; the index starts at -1 and is incremented only while idx+1 < len)
+	for _, in := range b.Instrs {
+		phi, ok := in.(*ssa.Phi)
+		if !ok {
+			break
+		}
+		if phi.Comment != "rangeindex" || phi.Referrers() == nil {
+			continue
+		}
+		for _, r := range *phi.Referrers() {
+			inc, ok := r.(*ssa.BinOp)
+			if !ok || inc.Op != token.ADD || inc.Referrers() == nil {
+				continue
+			}
+			for _, r2 := range *inc.Referrers() {
+				cmp, ok := r2.(*ssa.BinOp)
+				if !ok || cmp.Op != token.LSS || cmp.X != inc {
+					continue
+				}
+				if _, known := fr.vals[cmp.Y]; known || isConstLike(cmp.Y) {
+					ln := fr.get(cmp.Y).ts[0]
+					idx := fr.vals[phi].ts[0]
+					x.sc.assertC(implies(reach, and(app("<=", "(- 1)", idx), app("<", idx, ln))), "range-loop index bounds")
+				}
+			}
+		}
+	}
 	// implicit frame invariant: obligation on the entry edges, assumption at the header
 	for k, p := range ps {
 		if t := fr.autoFrameInv(b, fr.heapOut[p]); t != "true" {
